@@ -14,6 +14,7 @@ type dgen struct {
 	firstFault int // stratified call index of the first writer fault (-1 random)
 	geomClass  string
 	nilWrites  bool // some writer faults are (0, nil) answers (C06 only)
+	deadWriter bool // the writer fails for good from some call on (C06 only)
 	bigLits    bool // plain writes and trailing literals are sized "any" (oversize allowed: Write chunks them) while sequences keep g.sizes
 }
 
@@ -255,6 +256,9 @@ func genWPlan(r *RNG, first int, n int) *WPlan {
 				e.Accept = r.Intn(1 << 12) // clamped to len-1 by the writer
 			}
 			e.Short = r.Chance(0.4)
+			if !e.Short && r.Chance(0.25) {
+				e.Err = r.pickStr("full", "full", "empty", "eof", "closed")
+			}
 			p.Events = append(p.Events, e)
 		}
 	}
@@ -274,6 +278,10 @@ func genDecoderTrace(r *RNG, g dgen) *Trace {
 	ws, bs := spec.sizes()
 	if g.wfaults {
 		spec.WPlan = genWPlan(r, g.firstFault, 12)
+		if g.deadWriter {
+			spec.WPlan.DeadFrom = 1 + r.Intn(10)
+			spec.WPlan.DeadErr = r.pickStr("", "full", "full", "eof")
+		}
 		if g.nilWrites {
 			for i := range spec.WPlan.Events {
 				if r.Chance(0.3) {
